@@ -73,6 +73,7 @@ var errClasses = []struct{ prefix, coq string }{
 	{"invalid response status code", "EBadStatus"},
 	{"fasthttp: unexpected char at the end of status code", "EBadStatus"},
 	{"invalid headers, headers cannot start with space or tab", "EStartSpace"},
+	{"invalid headers, the header block must end with an empty CRLF line", "EBadBlockEnd"},
 	{"malformed mime header: missing colon", "EMissingColon"},
 	{"malformed mime header line", "EBadKeyLine"},
 	{"invalid header key", "EInvalidKey"},
@@ -243,11 +244,12 @@ func CRLFTerminated(h []byte) bool {
 	return b == "\r\n" || strings.HasSuffix(b, "\r\n\r\n")
 }
 
-// KeyBareLF is the known-finding key of complete heads outside the guard.
+// KeyBareLF is the known-finding key of complete RESPONSE heads outside the guard (the request side was
+// repaired by f7a0f16: RequestHeader.parseHeaders decides from the block alone).
 const KeyBareLF = "bareLF-blank-line-terminator"
 
-func Key(h []byte) string {
-	if HeadLen(h) == len(h) && len(h) > 0 && !CRLFTerminated(h) {
+func Key(resp bool, h []byte) string {
+	if resp && HeadLen(h) == len(h) && len(h) > 0 && !CRLFTerminated(h) {
 		return KeyBareLF
 	}
 	return ""
